@@ -67,6 +67,54 @@ func flagTrueDominates(fn *ssa.Function, flag string, b *ssa.BasicBlock) bool {
 	return false
 }
 
+// oneHitConsumed: on every path from block region of fn to a return dominated
+// by it, the single hit is consumed: a store docNum1Hit = MaxUint64, the true
+// edge of docNum1Hit == MaxUint64, or a call of a method on the same iterator
+// all of whose returns have that property (the branch extracted into a helper).
+func oneHitConsumed(c *Ctx, fn *ssa.Function, region *ssa.BasicBlock, depth int) (bad string, nret int) {
+	via := map[*ssa.BasicBlock]bool{}
+	for _, x := range fn.Blocks {
+		if !(region == x || region.Dominates(x)) {
+			continue
+		}
+		for _, ins := range x.Instrs {
+			if st, ok := ins.(*ssa.Store); ok && exprSig(st.Addr, 0) == ".docNum1Hit" && isMaxUint64(st.Val) {
+				via[x] = true
+			}
+			if ci, ok := ins.(ssa.CallInstruction); ok && depth < 2 && len(fn.Params) > 0 {
+				sc := ci.Common().StaticCallee()
+				if sc != nil && c.inRoot(sc) && sc.Blocks != nil && len(ci.Common().Args) > 0 && ci.Common().Args[0] == ssa.Value(fn.Params[0]) && sc.Signature.Recv() != nil {
+					if b2, n2 := oneHitConsumed(c, sc, sc.Blocks[0], depth+1); b2 == "" && n2 > 0 {
+						via[x] = true
+					}
+				}
+			}
+		}
+		if ifi, ok := x.Instrs[len(x.Instrs)-1].(*ssa.If); ok {
+			if bin, ok := ifi.Cond.(*ssa.BinOp); ok && bin.Op == token.EQL && exprSig(bin.X, 0) == ".docNum1Hit" && isMaxUint64(bin.Y) {
+				via[x.Succs[0]] = true
+			}
+			if bin, ok := ifi.Cond.(*ssa.BinOp); ok && bin.Op == token.NEQ && exprSig(bin.X, 0) == ".docNum1Hit" && isMaxUint64(bin.Y) {
+				via[x.Succs[1]] = true
+			}
+		}
+	}
+	for _, b := range fn.Blocks {
+		if !(region == b || region.Dominates(b)) {
+			continue
+		}
+		ret, ok := b.Instrs[len(b.Instrs)-1].(*ssa.Return)
+		if !ok {
+			continue
+		}
+		nret++
+		if !coveredFrom(region, via, b) {
+			bad = "a return of the 1-hit branch at " + c.pos(retPos(ret, b)) + " leaves the single hit unconsumed: a later Next/Advance would return it again"
+		}
+	}
+	return bad, nret
+}
+
 func init() {
 	register(&Rule{
 		Name:  "ENTRY-ARITY",
@@ -76,15 +124,28 @@ func init() {
 			// writers
 			for _, name := range []string{"(*interim).writeDictsTermField", "mergeTermFreqNormLocs"} {
 				fn := c.MustFn(name)
-				var tf *ssa.Parameter
-				for _, p := range fn.Params {
-					if p.Name() == "tfEncoder" {
-						tf = p
+				// the freq/norm encoder: the receiver of the Add calls that carry
+				// encodeFreqHasLocs (however the encoder is named or passed)
+				hasEnc := func(add *ssa.Call) bool {
+					for _, v := range varargValues(add.Call.Args[2]) {
+						if call, ok := v.(*ssa.Call); ok && call.Call.StaticCallee() != nil && fnName(call.Call.StaticCallee()) == "encodeFreqHasLocs" {
+							return true
+						}
 					}
+					return false
+				}
+				tfRecv := map[string]bool{}
+				for _, add := range callsOf(fn, "(*chunkedIntCoder).Add") {
+					if hasEnc(add) {
+						tfRecv[exprSig(add.Call.Args[0], 0)] = true
+					}
+				}
+				if p := paramNamed(fn, "tfEncoder"); p != nil {
+					tfRecv[exprSig(p, 0)] = true
 				}
 				n := 0
 				for _, add := range callsOf(fn, "(*chunkedIntCoder).Add") {
-					if tf == nil || add.Call.Args[0] != ssa.Value(tf) {
+					if !tfRecv[exprSig(add.Call.Args[0], 0)] {
 						continue
 					}
 					n++
@@ -346,38 +407,7 @@ func init() {
 			if region == nil {
 				r.bad(key, fnName(fn), c.pos(fn.Pos()), "the iterator does not dispatch on normBits1Hit first")
 			} else {
-				bad := ""
-				nret := 0
-				for _, b := range fn.Blocks {
-					if !region.Dominates(b) {
-						continue
-					}
-					ret, ok := b.Instrs[len(b.Instrs)-1].(*ssa.Return)
-					if !ok {
-						continue
-					}
-					nret++
-					// on every path from region to b: a store docNum1Hit = MaxUint64, or the ==sentinel true edge
-					via := map[*ssa.BasicBlock]bool{}
-					for _, x := range fn.Blocks {
-						if !region.Dominates(x) {
-							continue
-						}
-						for _, ins := range x.Instrs {
-							if st, ok := ins.(*ssa.Store); ok && exprSig(st.Addr, 0) == ".docNum1Hit" && isMaxUint64(st.Val) {
-								via[x] = true
-							}
-						}
-						if ifi, ok := x.Instrs[len(x.Instrs)-1].(*ssa.If); ok {
-							if bin, ok := ifi.Cond.(*ssa.BinOp); ok && bin.Op == token.EQL && exprSig(bin.X, 0) == ".docNum1Hit" && isMaxUint64(bin.Y) {
-								via[x.Succs[0]] = true
-							}
-						}
-					}
-					if !coveredFrom(region, via, b) {
-						bad = "a return of the 1-hit branch at " + c.pos(retPos(ret, b)) + " leaves the single hit unconsumed: a later Next/Advance would return it again"
-					}
-				}
+				bad, nret := oneHitConsumed(c, fn, region, 0)
 				if bad != "" {
 					r.bad(key, fnName(fn), c.pos(fn.Pos()), bad)
 				} else if nret == 0 {
